@@ -580,6 +580,12 @@ class ParsedObject:
         self._hash = result
         return result
 
+    def __getstate__(self):
+        # The cached hash is only good for this process (str hashes are salted).
+        state = dict(self.__dict__)
+        state['_hash'] = None
+        return state
+
     def _asdict(self):
         return {k: getattr(self, k) for k in self._fields}
 
